@@ -22,5 +22,6 @@ CONSTANTS
   MaxPos = 3
   MaxKw = 2
   BugRuntimeIgnoresKwDefaults = FALSE
+  BugStringDropsAllowUnpack = FALSE
   FixedDunder = FALSE
 CHECK_DEADLOCK FALSE
